@@ -37,12 +37,12 @@ fn c03(args: &Args) -> i32 {
         property: "C03",
         check_name: "C03",
         level: "exploration",
-        engine: "TXM",
-        rule: "histories of begin/write/commit/abort/gc drawn from the run seed (<=6 live transactions, <=5 entities, 4..36 (quick) or 4..60 (thorough) operations); a case is non-trivial when at least one commit was issued by a transaction that had an overlapping committed writer of one of its entities; distinct = distinct operation lists".into(),
-        real: REAL_TXM.to_vec(),
-        stub: vec![],
+        engine: "TXM+HIST+SCHED",
+        rule: "three layers, selected by run index (198 of 200 / 1 of 200 / 1 of 200): (1) manager level: histories of begin/write/commit/abort/gc drawn from the run seed (<=6 live transactions, <=5 entities, 4..36 (quick) or 4..60 (thorough) operations); a case is non-trivial when at least one commit was issued by a transaction that had an overlapping committed writer of one of its entities; (2) session level: two to four sessions whose open transactions modify the same node or edge through queries, judged by the first-committer-wins rule of the reference model; (3) thread level: 2-3 simulated threads each running begin/write/commit (plus gc) under shuttle with every lock operation a scheduling point; distinct = distinct operation lists / scenarios".into(),
+        real: vec!["grafeo_engine::transaction::TransactionManager (all of manager.rs)", "Session/GrafeoDB query path (session layer)"],
+        stub: vec!["parking_lot blocking paths and OS threads (thread layer only)"],
         assumptions: vec![
-            "single OS thread: the simulator issues one manager call at a time (the multi-threaded commit layer is check C03-mt inside C20's engine)".into(),
+            "manager layer: the simulator issues one manager call at a time".into(),
             "the specification clock is the count of successful commits; it is independent of the manager's epochs and of gc".into(),
         ],
         unchecked: vec![],
@@ -56,8 +56,21 @@ fn c03(args: &Args) -> i32 {
     };
     drive(
         batch,
-        &|seed, _i| eng_txm::run_one(seed, "C03", thorough),
-        Some(&eng_txm::minimise),
+        &|seed, i| {
+            // three layers, one property: manager-level histories (most runs), session-level
+            // histories with overlapping writers of one entity, and concurrent commits
+            // under the thread scheduler
+            match i % 200 {
+                198 => eng_hist::run_one(seed, "C03", thorough),
+                199 => eng_sched::run_one(seed, eng_sched::Family::Txm, "C03", if thorough { 60 } else { 20 }),
+                _ => eng_txm::run_one(seed, "C03", thorough),
+            }
+        },
+        Some(&|f: &crate::fw::Finding| match f.replay["engine"].as_str() {
+            Some("HIST") => eng_hist::minimise(f),
+            Some("SCHED") => eng_sched::minimise(f),
+            _ => eng_txm::minimise(f),
+        }),
         &mut |_| {},
     )
 }
